@@ -2,6 +2,7 @@
 // ReadCompactSize, transaction (un)serialization, HexStr / TryParseHex, base64, base32, base58.
 #include <drv_common.h>
 #include <base58.h>
+#include <primitives/block.h>
 #include <primitives/transaction.h>
 #include <serialize.h>
 #include <streams.h>
@@ -147,6 +148,20 @@ int main(int argc, char** argv)
         if (w.size() == 3 && w[0] == "dtx") {
             DataStream ds = stream_of(w[2]);
             return read_tx(ds, w[1] == "1");
+        }
+        if (w.size() == 3 && w[0] == "dblock") {
+            const bool aw = w[1] == "1";
+            DataStream ds = stream_of(w[2]);
+            return guarded([&] {
+                CBlock b;
+                if (aw) ds >> TX_WITH_WITNESS(b); else ds >> TX_NO_WITNESS(b);
+                DataStream re;
+                if (aw) re << TX_WITH_WITNESS(b); else re << TX_NO_WITNESS(b);
+                return "ok " + std::to_string(b.nVersion) + " " + vd::hex(b.hashPrevBlock.begin(), b.hashPrevBlock.end()) + " " +
+                       vd::hex(b.hashMerkleRoot.begin(), b.hashMerkleRoot.end()) + " " + std::to_string(b.nTime) + " " +
+                       std::to_string(b.nBits) + " " + std::to_string(b.nNonce) + " " + std::to_string(b.vtx.size()) + " " +
+                       std::to_string(ds.size()) + " " + hexs(re);
+            });
         }
         if (w.size() == 2 && w[0] == "hex") {
             auto b = vd::unhex(w[1]);
